@@ -186,6 +186,18 @@ def spec_closure(tla):
     return seen
 
 
+def _auto_workers():
+    """all cores when the machine is idle, fewer when many checks/agents run at once"""
+    w = os.environ.get("VERIF_TLC_WORKERS")
+    if w:
+        return int(w)
+    try:
+        load = os.getloadavg()[0]
+    except OSError:
+        load = 0
+    return NCPU if load < NCPU else max(2, NCPU // 4)
+
+
 def tlc(tla, cfg, workers=None, simulate=None, depth=None, env=None, timeout=3600, cache=False, coverage=False, extra_hash="", dfs=False, heap="8g", deadlock=None, dump=None, lib_dirs=None, seed=None):
     """Run TLC. Returns TlcResult. `cache`: reuse a stored result when spec+cfg(+extra) are unchanged."""
     tla = os.path.abspath(tla)
@@ -211,7 +223,7 @@ def tlc(tla, cfg, workers=None, simulate=None, depth=None, env=None, timeout=360
     jopts = ["-XX:+UseParallelGC", "-Xmx" + heap, "-DTLA-Library=" + ":".join(libs)]
     if dfs:
         jopts.append("-Dtlc2.tool.queue.IStateQueue=StateDeque")
-    cmd = ["java"] + jopts + ["-cp", JAR, "tlc2.TLC", "-metadir", meta, "-config", cfg, "-workers", str(workers or NCPU), "-noGenerateSpecTE"]
+    cmd = ["java"] + jopts + ["-cp", JAR, "tlc2.TLC", "-metadir", meta, "-config", cfg, "-workers", str(workers or _auto_workers()), "-noGenerateSpecTE"]
     if simulate:
         cmd += ["-simulate", simulate]
     if depth:
